@@ -19,16 +19,18 @@
     - [C19_bounds]: the configured trace-length and iteration bounds are
       respected, pick_next's recursion always ends, and with an iteration
       bound the main loop needs at most that many iterations.
-    PARTIAL in two respects, both stated in DESIGN.md: the filter theorem is
-    for max_trace_length = 0 (with a bound the filtered run stops later in
-    simulated time; the monitor checks the prefix relation on generated runs),
-    and [C19_no_assertion] is for total clocks; for the real std clock
+    - [C19_projection_bounded]: with a trace-length bound M > 0 the filtered
+      run returns exactly the first M elements (all, if fewer) of the filtered
+      trace of the unfiltered run without a length bound (the filtered run
+      stops when its own trace reaches M; up to there both go through the same
+      states). Conditional on both runs returning.
+    [C19_no_assertion] is for total clocks; for the real std clock
     [C19_std_clock] shows that the only possible panic is the Duration overflow
     inside an embedded framework beyond 2^64 s of accumulated blocking (known
     finding F6 of C01), never one of the simulator's assertions. *)
 From MB Require Import Model.Framework Model.Sim.
 From MB Require Import Proofs.FrameworkInv Proofs.FrameworkTotal.
-From MB Require Proofs.SimBasics Proofs.SimTotal Proofs.SimTotalStd.
+From MB Require Proofs.SimBasics Proofs.SimTotal Proofs.SimTotalStd Proofs.SimProjectionBounded.
 Import ListNotations.
 Open Scope N_scope.
 
@@ -39,6 +41,15 @@ Theorem C19_projection : forall fuel cc sc tp sq delay pps args,
       (sim_advanced fuel cc sc tp sq delay pps (SimBasics.unfiltered args)).
 Proof. exact SimBasics.sim_advanced_projection. Qed.
 Print Assumptions C19_projection.
+
+
+Theorem C19_projection_bounded : forall fuelF fuelU cc sc tp sq delay pps args outF outU,
+  0 < a_max_trace args ->
+  sim_advanced fuelF cc sc tp sq delay pps args = Ok outF ->
+  sim_advanced fuelU cc sc tp sq delay pps (SimProjectionBounded.reference args) = Ok outU ->
+  outF = firstn (N.to_nat (a_max_trace args)) (filter (SimBasics.keep args) outU).
+Proof. exact SimProjectionBounded.sim_advanced_projection_bounded. Qed.
+Print Assumptions C19_projection_bounded.
 
 Theorem C19_no_assertion : forall fuel cc sc tp sq delay pps args k,
   SimTotal.cfg_ok cc -> SimTotal.cfg_ok sc -> SimTotal.wf_simq sq -> sq_first_time sq <> None ->
